@@ -27,6 +27,7 @@ type Parser struct {
 	function uint8
 	wbit     bool
 	strict   bool // immutable after NewParser
+	depth    int  // list nesting depth of the item being parsed
 }
 
 // NewParser returns a Parser configured by opts (default: non-strict).
@@ -126,6 +127,7 @@ func (p *Parser) initInput(input string) {
 	p.data = input
 	p.len = len(input)
 	p.pos = 0
+	p.depth = 0
 }
 
 // errf builds a *ParseError at the parser's current offset.
@@ -361,6 +363,15 @@ func (p *Parser) parseItem() (secs2.Item, error) {
 }
 
 func (p *Parser) parseList(size int) (secs2.Item, error) {
+	// Lists nest by recursion (parseItem -> parseList -> parseItem): bound the depth like the binary
+	// decoder does, so hostile input cannot exhaust the goroutine stack.
+	if p.depth >= secs2.MaxListDepth {
+		return nil, p.errf("list nesting depth exceeds maximum allowed: %d", secs2.MaxListDepth)
+	}
+
+	p.depth++
+	defer func() { p.depth-- }()
+
 	childItems := make([]secs2.Item, 0, min(size, len(p.data)))
 
 	for {
